@@ -441,8 +441,14 @@ func (m *Manager) FlushMemTables() error {
 	// Track operation
 	m.stats.TrackOperation(stats.OpFlush)
 
+	// Writers append to the immutable list under the engine lock (scheduleFlush)
+	// while this function runs under flushMu only, so work on a snapshot of it
+	m.mu.RLock()
+	immutables := append([]*memtable.MemTable(nil), m.immutableMTs...)
+	m.mu.RUnlock()
+
 	// If no immutable MemTables, flush the active one if needed
-	if len(m.immutableMTs) == 0 {
+	if len(immutables) == 0 {
 		tables := m.memTablePool.GetMemTables()
 		if len(tables) > 0 && tables[0].ApproximateSize() > 0 {
 			// In testing, we might want to force flush the active table too
@@ -470,15 +476,18 @@ func (m *Manager) FlushMemTables() error {
 	}
 
 	// Flush each immutable MemTable
-	for i, imMem := range m.immutableMTs {
+	for i, imMem := range immutables {
 		if err := m.flushMemTable(imMem); err != nil {
 			m.stats.TrackError("memtable_flush_error")
 			return fmt.Errorf("failed to flush MemTable %d: %w", i, err)
 		}
 	}
 
-	// Clear the immutable list - the MemTablePool manages reuse
-	m.immutableMTs = m.immutableMTs[:0]
+	// Remove the flushed MemTables from the list - the MemTablePool manages reuse.
+	// MemTables that were queued while this flush ran stay in it for the next one.
+	m.mu.Lock()
+	m.immutableMTs = m.immutableMTs[len(immutables):]
+	m.mu.Unlock()
 
 	// Track flush count
 	m.stats.TrackFlush()
